@@ -52,10 +52,12 @@ Supply == Cardinality(Users) * InitBal
 \* TxPool holds templates [tid, kind, from, signer, chain, to, amt, ops]; a transaction is a template plus a
 \* nonce (next / dup / gap relative to the sender's current nonce) and the id <<tid, nonce>>:
 \*   [tid, id, kind, from, signer, chain, nonce, to, amt, ops]
-\*   kind: transfer | stake | unstake | vote | name | deploy | call | vault
+\*   kind: transfer | stake | unstake | vote | name | deploy | call | fdcall | vault
 \*   signer: the key that signed (= from when honest); chain: "this" | "other"
 \*   ops (call): "ok" | "fail" (runtime failure after a storage write and a send) | "send" (contract sends amt to `to`)
 Authorised(t) == t.signer = t.from /\ t.chain = "this"
+\* who pays the fee: the called contract for a fee-delegated call, the sender otherwise
+Payer(t) == IF t.kind = "fdcall" THEN Contract ELSE t.from
 
 \* What the properties FIX about the class of t: an unauthorised transaction, a wrong nonce or a replay must be
 \* rejected (C04).  Whether an authorised transaction succeeds, fails at run time or is rejected (balance, fee
@@ -65,19 +67,21 @@ MustReject(t) == ~Authorised(t) \/ t.nonce # nonce[t.from] + 1 \/ t \in executed
 
 \* an authorised transaction may take effect only if the abstract state can carry the effect
 CanApply(t, fee) ==
-  /\ bal[t.from] >= t.amt + fee + (IF t.kind = "name" THEN NamePrice ELSE 0)
+  /\ bal[t.from] >= t.amt + (IF Payer(t) = t.from THEN fee ELSE 0) + (IF t.kind = "name" THEN NamePrice ELSE 0)
+  /\ bal[Payer(t)] >= fee
   /\ CASE t.kind = "stake"   -> staked[t.from] = 0 /\ t.amt >= MinStake
        [] t.kind = "unstake" -> FALSE                      \* inside the staking lock period (heights are small)
        [] t.kind = "vote"    -> staked[t.from] > 0            \* (re-votes inside the voting lock period are rejected by the code)
        [] t.kind = "name"    -> owner = None
        [] t.kind = "deploy"  -> ~deployed
        [] t.kind = "call"    -> deployed
+       [] t.kind = "fdcall"  -> deployed
        [] OTHER              -> TRUE
 
 Classes(t, fee) ==
   IF MustReject(t) THEN {"reject"}
   ELSE {"reject"} \cup (IF ~CanApply(t, fee) THEN {}
-                        ELSE IF t.kind = "call" /\ t.ops = "fail" THEN {"error"} ELSE {"success"})
+                        ELSE IF t.kind \in {"call", "fdcall"} /\ t.ops = "fail" THEN {"error"} ELSE {"success"})
 
 \* effects of a successful transaction on balances (fee excluded)
 Move(b, from, to, a) == [b EXCEPT ![from] = @ - a, ![to] = @ + a]
@@ -111,12 +115,16 @@ ApplySuccess(t, fee) ==
             /\ bal' = [Move(bal, t.from, Contract, t.amt) EXCEPT ![t.from] = @ - fee]
             /\ store' = t.nonce                    \* the call writes the storage key
             /\ UNCHANGED <<staked, total, owner, deployed>>
+       [] t.kind = "fdcall" ->                    \* fee-delegated call: the contract pays the fee
+            /\ bal' = [Move(bal, t.from, Contract, t.amt) EXCEPT ![Contract] = @ - fee]
+            /\ store' = t.nonce
+            /\ UNCHANGED <<staked, total, owner, deployed>>
 
-\* a transaction that fails at run time: ONLY the fee and the nonce
+\* a transaction that fails at run time: ONLY the fee (charged to the payer) and the SENDER's nonce
 ApplyError(t, fee) ==
   /\ nonce' = [nonce EXCEPT ![t.from] = t.nonce]
   /\ executed' = executed \cup {t}
-  /\ bal' = [bal EXCEPT ![t.from] = @ - fee]
+  /\ bal' = [bal EXCEPT ![Payer(t)] = @ - fee]
   /\ bpReward' = bpReward + fee
   /\ UNCHANGED <<staked, total, owner, deployed, store>>
 
@@ -189,7 +197,7 @@ Trichotomy ==
          /\ c \in {"success", "error", "reject"}
          /\ c = "reject" => /\ bal' = bal /\ nonce' = nonce /\ staked' = staked /\ total' = total /\ owner' = owner
                             /\ deployed' = deployed /\ store' = store /\ bpReward' = bpReward /\ rcpts' = rcpts
-         /\ c = "error"  => /\ bal' = [bal EXCEPT ![t.from] = @ - f] /\ nonce' = [nonce EXCEPT ![t.from] = t.nonce]
+         /\ c = "error"  => /\ bal' = [bal EXCEPT ![Payer(t)] = @ - f] /\ nonce' = [nonce EXCEPT ![t.from] = t.nonce]
                             /\ staked' = staked /\ total' = total /\ owner' = owner /\ deployed' = deployed /\ store' = store
                             /\ bpReward' = bpReward + f]_vars
 
